@@ -221,7 +221,7 @@ Fixpoint add_attrs_loop (c : actx) (is_coll : bool) (m : nsm) (d : list (qname *
           | Done m2 None => (m2, d, LFail EProv)     (* "Invalid value for attribute" *)
           | Done m2 (Some v) =>
               let existing := attr_get attr d in
-              if (negb is_coll && is_formal_attr attr)%bool then
+              if (negb (is_coll && is_prov_name "entity" attr) && is_formal_attr attr)%bool then
                 match existing with
                 | e0 :: _ =>
                     if py_eq v e0 then add_attrs_loop c is_coll m2 d rest
